@@ -363,6 +363,15 @@ def e_hide_prev_turn(ctx):
     if fn is None:
         raise AnalysisError("compute_next_steps not found", anchor=FL1 + "::compute_next_steps")
     hides = [n for n in walk_no_nested(fn) if isinstance(n, ast.If) and "hide_prev_turn" in src(n.test)]
+    if not hides:
+        # the handling may have been extracted into a helper called from compute_next_steps
+        for c in walk_no_nested(fn):
+            if isinstance(c, ast.Call) and isinstance(c.func, ast.Name):
+                h = find_function(t, c.func.id)
+                if h is not None and any(isinstance(n, ast.If) and "hide_prev_turn" in src(n.test) for n in walk_no_nested(h)):
+                    fn = h
+                    hides = [n for n in walk_no_nested(h) if isinstance(n, ast.If) and "hide_prev_turn" in src(n.test)]
+                    break
     ctx.floor("C03.e.hide-prev-turn", FL1, "hide_prev_turn handling in compute_next_steps", len(hides), 1)
     prov = _index_provenance(fn)
     for h in hides:
